@@ -120,7 +120,10 @@ def rule_fderiv(ctx):
                 p, rc = c.args[0], c.args[1]
                 ip = [i for i, x in enumerate(comps) if x is p]
                 ir = [i for i, x in enumerate(comps) if x is rc]
-                order = bool(ip) and bool(ir) and ip[0] < ir[0]
+                # equal terms (the literal 0 for both) sit at several positions: some precision slot precedes some recall slot
+                order = any(i < j for i in ip for j in ir)
+                if order and p is rc:
+                    ip, ir = ip[:1], ir[1:]
                 beta_ok = True
                 if "beta" in f.params:
                     b = dict(c.kw).get("beta") or (c.args[2] if len(c.args) > 2 else None)
